@@ -20,6 +20,7 @@ import (
 	"compress/gzip"
 	"io"
 	"net/http"
+	"strconv"
 	"strings"
 
 	"github.com/tmpim/casket"
@@ -53,7 +54,7 @@ type Config struct {
 
 // ServeHTTP serves a gzipped response if the client supports it.
 func (g Gzip) ServeHTTP(w http.ResponseWriter, r *http.Request) (int, error) {
-	if !strings.Contains(r.Header.Get("Accept-Encoding"), "gzip") {
+	if !acceptsGzip(r) {
 		return g.Next.ServeHTTP(w, r)
 	}
 outer:
@@ -112,6 +113,34 @@ outer:
 
 	// no matching filter
 	return g.Next.ServeHTTP(w, r)
+}
+
+// acceptsGzip reports whether the client offered the gzip coding: an
+// Accept-Encoding element names gzip (or its alias x-gzip) and does not
+// give it the weight 0, which means "not acceptable" (RFC 7231, 5.3.4).
+func acceptsGzip(r *http.Request) bool {
+	for _, field := range r.Header["Accept-Encoding"] {
+		for _, elem := range strings.Split(field, ",") {
+			params := strings.Split(elem, ";")
+			coding := strings.ToLower(strings.TrimSpace(params[0]))
+			if coding != "gzip" && coding != "x-gzip" {
+				continue
+			}
+			refused := false
+			for _, param := range params[1:] {
+				kv := strings.SplitN(param, "=", 2)
+				if len(kv) == 2 && strings.EqualFold(strings.TrimSpace(kv[0]), "q") {
+					if q, err := strconv.ParseFloat(strings.TrimSpace(kv[1]), 64); err == nil && q == 0 {
+						refused = true
+					}
+				}
+			}
+			if !refused {
+				return true
+			}
+		}
+	}
+	return false
 }
 
 // gzipResponseWriter wraps the underlying Write method
